@@ -191,6 +191,9 @@ impl S {
 /// afterwards the registry must treat it as gone.
 struct Reg {
     cause: Cause,
+    /// instead of looking the service up, the client registers a new instance through the
+    /// builder's register() terminal - which must see that the old one is gone
+    register_again: bool,
 }
 
 impl Scene for Reg {
@@ -228,7 +231,23 @@ impl Scene for Reg {
             Cause::StartErr | Cause::StartPanic => vec![],
         };
         exec.spawn_client(0, run_client(0, Handles::with_addr(addr), t_ops));
-        exec.spawn_client(6, crate::props::c06::registry_client(6));
+        if self.register_again {
+            exec.spawn_client(6, async {
+                use futures::FutureExt as _;
+                let mut held: Option<hannibal::Addr<crate::world::Probe<0>>> = None;
+                crate::world::log(crate::world::Ev::Begin { c: 6, i: 0 });
+                crate::world::sleep(8).await;
+                crate::world::log(crate::world::Ev::End { c: 6, i: 0, r: Res::Ok });
+                for (k, op) in [crate::props::c08::ROp::BuildRegisterNew, crate::props::c08::ROp::AlreadyRunning].iter().enumerate() {
+                    let i = k as u16 + 1;
+                    crate::world::log(crate::world::Ev::Begin { c: 6, i });
+                    let r = std::panic::AssertUnwindSafe(crate::props::c08::reg_op::<0>(&mut held, *op)).catch_unwind().await.unwrap_or(Res::Panicked);
+                    crate::world::log(crate::world::Ev::End { c: 6, i, r });
+                }
+            });
+        } else {
+            exec.spawn_client(6, crate::props::c06::registry_client(6));
+        }
     }
     fn check(&self, t: &Trace) -> Vec<Violation> {
         let an = crate::trace::An::new(t.log);
@@ -241,6 +260,19 @@ impl Scene for Reg {
         }
         crate::check::oblige("dependants-react");
         let r = |i: u16| an.op(6, i).and_then(|o| o.res);
+        if self.register_again {
+            if let Some(res) = r(1) {
+                if !matches!(res, Res::Registered { replaced: true, .. }) {
+                    out.push(Violation { clause: "dependants-react", key: format!("C14/register-over-terminated-refused/cause={ck}"), detail: format!("registering a new instance through the builder after an un-awaited termination returned {res:?}; expected success, handing back the dead entry") });
+                }
+            }
+            if let (Some(Res::Registered { .. }), Some(res)) = (r(1), r(2)) {
+                if res != Res::OptBool(Some(true)) {
+                    out.push(Violation { clause: "dependants-react", key: format!("C14/register-over-terminated-refused/already_running/cause={ck}"), detail: format!("already_running after the new registration returned {res:?}") });
+                }
+            }
+            return out;
+        }
         if let Some(res) = r(1) {
             if !matches!(res, Res::Reg { present: false, .. }) {
                 out.push(Violation { clause: "dependants-react", key: format!("C14/try_from_registry-returns-dead/cause={ck}"), detail: format!("try_from_registry after an un-awaited termination returned {res:?}") });
@@ -303,7 +335,13 @@ fn base_cases(tier: Tier) -> Vec<Case> {
                 desc: format!("dependants cause={cause:?}"),
                 exec: ExecCfg { horizon: 30, cancel: if let Cause::Cancel(j) = cause { Some((0, j)) } else { None }, ..ExecCfg::default() },
                 bound: None,
-                scene: Box::new(Reg { cause }),
+                scene: Box::new(Reg { cause, register_again: false }),
+            });
+            v.push(Case {
+                desc: format!("dependants [a new instance is registered through the builder] cause={cause:?}"),
+                exec: ExecCfg { horizon: 30, cancel: if let Cause::Cancel(j) = cause { Some((0, j)) } else { None }, ..ExecCfg::default() },
+                bound: None,
+                scene: Box::new(Reg { cause, register_again: true }),
             });
         }
         for awaiting in [Awaiting::Nobody, Awaiting::Await, Awaiting::PollOnce] {
